@@ -17,7 +17,11 @@ pub fn can_touch(a: &Tok, b: &Tok) -> bool {
     if word_like(a) && word_like(b) { return false; }
     if a.kind == TK::Str || b.kind == TK::Str { return a.kind == TK::Punct && a.text != "=>" || b.kind == TK::Punct && b.text != "=>"; }
     let opish = |t: &Tok| t.kind == TK::Op || t.text == "=>";
-    if opish(a) && opish(b) { return false; }
+    // two operators may touch unless their meeting characters spell another token (`<=`, `>=`, `!=`, `--`, `<>`, `::`, `=>`, `==`, `||`)
+    if opish(a) && opish(b) {
+        let pair = (a.text.chars().last().unwrap_or(' '), b.text.chars().next().unwrap_or(' '));
+        return !matches!(pair, ('<', '=') | ('>', '=') | ('!', '=') | ('-', '-') | ('<', '>') | (':', ':') | ('=', '>') | ('=', '=') | ('|', '|') | ('<', '<') | ('>', '>') | ('-', '>'));
+    }
     // "1." or ".5" would become a number
     if (a.kind == TK::Number && b.text == ".") || (a.text == "." && b.kind == TK::Number) { return false; }
     true
